@@ -10,6 +10,7 @@ mod core;
 mod e1;
 mod e2;
 mod hostcall;
+mod lsp;
 mod pipeline;
 mod prelude;
 mod props;
